@@ -638,7 +638,7 @@ func (v *Verifier) VerifyFunc(key string) (res *FuncResult) {
 			lv := v.evalLockRef(env, x, st, e)
 			id := x.refOf(lv).String()
 			tc, mon, base, root := x.monitorOf(st, lv)
-			h := &Held{ID: id, Base: base, TC: tc, Mon: mon, Root: root}
+			h := &Held{ID: id, Base: base, TC: tc, Mon: mon, Root: root, Class: x.classOfText(env, strings.TrimPrefix(cl.Text, "holds "), fc)}
 			st.Held[id] = h
 			v.entryHeld[id] = true
 			v.entryHeldList = append(v.entryHeldList, h)
@@ -676,7 +676,18 @@ func (v *Verifier) VerifyFunc(key string) (res *FuncResult) {
 			ov := v.eval(env, e)
 			if ov.Term != nil {
 				st.Owned = append(st.Owned, ov.Term)
+				x.addWaitOblig(st, waitOblig{"chan", ov.Term, x.classOfText(env, cl.Text[5:], fc), "the close of " + cl.Text[5:]})
 				x.note("ASSUMED ownership: only this goroutine closes " + cl.Text[5:] + " (handed out receive-only)")
+			}
+		}
+		if strings.HasPrefix(cl.Text, "obliged ") && !strings.Contains(cl.Text, " @") {
+			// a channel this function has to close before it blocks on anything at or below the channel's class
+			e, err := ParseExpr(strings.TrimPrefix(cl.Text, "obliged "))
+			if err != nil {
+				panic(unsupported{err.Error()})
+			}
+			if ov := v.eval(env, e); ov.Term != nil {
+				x.addWaitOblig(st, waitOblig{"chan", ov.Term, x.classOfText(env, cl.Text[8:], fc), "the close of " + cl.Text[8:]})
 			}
 		}
 		if strings.HasPrefix(cl.Text, "consumes-wg ") {
@@ -686,6 +697,7 @@ func (v *Verifier) VerifyFunc(key string) (res *FuncResult) {
 				panic(unsupported{err.Error()})
 			}
 			r := x.refOf(v.syncRef(env, e))
+			x.addWaitOblig(st, waitOblig{"wg", r, x.classOfText(env, wgText, fc), "a token of " + wgText})
 			if subjText != "" {
 				se, err := ParseExpr(subjText)
 				if err != nil {
